@@ -30,6 +30,9 @@ def supplied_tables(mesh: dict, rng: random.Random) -> dict:
                 face_face[a].append(b)
             if a not in face_face[b]:
                 face_face[b].append(a)
+    # a boundary edge has one neighbouring face; files written as "face on the left, face on the right" put the missing
+    # neighbour in either column
+    edge_face = [([-1, ef[0]] if len(ef) == 1 and rng.random() < .5 else ef) for ef in edge_face]
     m = dict(mesh)
     m["edges"] = edges
     m["face_edge"] = face_edge
